@@ -153,6 +153,181 @@ def variants_of(src: str):
             yield emit("insert pass", add_pass)
 
 
+COMP = (ast.ListComp, ast.SetComp, ast.DictComp, ast.GeneratorExp)
+
+
+def _stores(nodes):
+    """Names bound by the statements (comprehension variables are scoped to the comprehension and excluded)."""
+    out = []
+
+    def visit(n):
+        if isinstance(n, COMP):
+            return
+        if isinstance(n, ast.Name) and isinstance(n.ctx, (ast.Store, ast.Del)):
+            out.append(n.id)
+        if isinstance(n, ast.ExceptHandler) and n.name:
+            out.append(n.name)
+        for c in ast.iter_child_nodes(n):
+            visit(c)
+    for st in nodes:
+        visit(st)
+    return out
+
+
+def _loads(nodes):
+    out = [n.id for st in nodes for n in ast.walk(st) if isinstance(n, ast.Name) and isinstance(n.ctx, ast.Load)]
+    # `x += e` reads x as well
+    out += [n.target.id for st in nodes for n in ast.walk(st) if isinstance(n, ast.AugAssign) and isinstance(n.target, ast.Name)]
+    return out
+
+
+def structural_variants_of(src: str):
+    """Larger exact refactorings: (a) extract a run of statements into a new private helper (arguments = the locals it
+    reads, result = the locals it binds that are used elsewhere), (b) `for ..: if c: BODY` -> `if not c: continue; BODY`."""
+    tree = ast.parse(src)
+    classes = {id(f): c for c in ast.walk(tree) if isinstance(c, ast.ClassDef) for f in c.body if isinstance(f, ast.FunctionDef)}
+    fns = [f for f in functions(tree) if not f.decorator_list and (id(f) in classes or f in tree.body)]
+    for fi, fn in enumerate(fns):
+        a = fn.args
+        params = [x.arg for x in a.posonlyargs + a.args + a.kwonlyargs] + ([a.vararg.arg] if a.vararg else []) + \
+                 ([a.kwarg.arg] if a.kwarg else [])
+        if any(isinstance(n, (ast.Yield, ast.YieldFrom, ast.Global, ast.Nonlocal)) for n in ast.walk(fn)):
+            continue
+        if any(isinstance(n, (ast.FunctionDef, ast.Lambda, ast.ClassDef)) and n is not fn for n in ast.walk(fn)):
+            continue
+        is_method = id(fn) in classes and params[:1] == ["self"]
+        if id(fn) in classes and not is_method:
+            continue
+        lists = []
+        for n in ast.walk(fn):
+            for fld in ("body", "orelse"):
+                sub = getattr(n, fld, None)
+                if isinstance(sub, list) and sub and all(isinstance(x, ast.stmt) for x in sub):
+                    lists.append((n, fld))
+        walk_index = {id(n): k for k, n in enumerate(ast.walk(tree))}
+        for holder, fld in lists:
+            stmts = getattr(holder, fld)
+            # (b) guard clause
+            if isinstance(holder, (ast.For, ast.While)) and fld == "body":
+                real = [x for x in stmts if not (isinstance(x, ast.Expr) and isinstance(x.value, ast.Constant))]
+                if len(real) == 1 and isinstance(real[0], ast.If) and not real[0].orelse:
+                    hk = walk_index[id(holder)]
+
+                    def guard(t2, hk=hk):
+                        h = list(ast.walk(t2))[hk]
+                        k = next(i for i, x in enumerate(h.body) if isinstance(x, ast.If))
+                        iff = h.body[k]
+                        h.body[k:k + 1] = [ast.If(test=ast.UnaryOp(op=ast.Not(), operand=iff.test), body=[ast.Continue()],
+                                                  orelse=[])] + iff.body
+                    yield ("guard clause with continue", holder.lineno, fn.name, guard)
+            # (a) extract method
+            for i in range(len(stmts)):
+                for j in range(i + 1, min(len(stmts), i + 4) + 1):
+                    block = stmts[i:j]
+                    if any(isinstance(x, ast.Expr) and isinstance(x.value, ast.Constant) for x in block):
+                        continue
+                    bad = False
+                    for x in block:
+                        for n in ast.walk(x):
+                            if isinstance(n, (ast.Return, ast.Break, ast.Continue, ast.Delete, ast.Raise)) or (
+                                    isinstance(n, ast.Call) and isinstance(n.func, ast.Name) and n.func.id in ("super", "locals", "vars")):
+                                bad = True
+                    if bad:
+                        continue
+                    first, last = block[0].lineno, block[-1].end_lineno
+                    inside = {id(n) for x in block for n in ast.walk(x)}
+                    outside_stmts = [n for n in ast.walk(fn) if id(n) not in inside]
+                    comp_targets = {id(n) for c in ast.walk(fn) if isinstance(c, COMP) for g in c.generators
+                                    for n in ast.walk(g.target)}
+                    before_stores = set(params) | {n.id for n in outside_stmts if isinstance(n, ast.Name)
+                                                   and isinstance(n.ctx, ast.Store) and n.lineno < first
+                                                   and id(n) not in comp_targets}
+                    after_or_other_stores = {n.id for n in outside_stmts if isinstance(n, ast.Name)
+                                             and isinstance(n.ctx, ast.Store) and n.lineno >= first
+                                             and id(n) not in comp_targets}
+                    w = list(dict.fromkeys(_stores(block)))
+                    r = list(dict.fromkeys(x for x in _loads(block)))
+                    local_names = before_stores | after_or_other_stores | set(w)
+                    comp_bound = {n.id for x in block for c in ast.walk(x) if isinstance(c, COMP)
+                                  for g in c.generators for n in ast.walk(g.target) if isinstance(n, ast.Name)}
+                    args = [x for x in r if x in before_stores and not (x in comp_bound and x not in before_stores)]
+                    # a local read in the block that is bound only later (loop-carried) or only in the block: skip unless
+                    # bound in the block itself at top level before use
+                    top_bound = set()
+                    for x in block:
+                        if isinstance(x, ast.Assign):
+                            top_bound |= set(_stores(x.targets))
+                        elif isinstance(x, ast.AnnAssign) and isinstance(x.target, ast.Name) and x.value is not None:
+                            top_bound.add(x.target.id)
+                    risky = [x for x in r if x in local_names and x not in before_stores and x not in top_bound
+                             and x not in comp_bound]
+                    if risky:
+                        continue
+                    outside_loads = {n.id for n in outside_stmts if isinstance(n, ast.Name) and isinstance(n.ctx, ast.Load)}
+                    in_loop = any(isinstance(L, (ast.For, ast.While)) and any(id(n) in inside for n in ast.walk(L))
+                                  for L in ast.walk(fn))
+                    # inside a loop the block's own reads of the next iteration keep its writes alive
+                    live = [x for x in w if x in outside_loads or (in_loop and x in args)]
+                    if any(x not in args and x not in top_bound for x in live):
+                        continue
+                    if not w and not any(isinstance(n, (ast.Call, ast.Subscript, ast.Attribute)) for x in block for n in ast.walk(x)):
+                        continue
+                    hk = walk_index[id(holder)]
+                    cls_k = walk_index[id(classes[id(fn)])] if id(fn) in classes else None
+                    fn_k = walk_index[id(fn)]
+                    hname = f"_{fn.name.strip('_')}_l{first}_part{i}_{j}"
+
+                    def extract(t2, hk=hk, fld=fld, i=i, j=j, args=tuple(args), live=tuple(live), cls_k=cls_k, fn_k=fn_k,
+                                hname=hname, is_method=is_method):
+                        nodes = list(ast.walk(t2))
+                        h, f2 = nodes[hk], nodes[fn_k]
+                        body = getattr(h, fld)
+                        block = body[i:j]
+                        a2 = [x for x in args if x != "self"]
+                        ret = []
+                        if live:
+                            val = ast.Name(id=live[0], ctx=ast.Load()) if len(live) == 1 else \
+                                ast.Tuple(elts=[ast.Name(id=x, ctx=ast.Load()) for x in live], ctx=ast.Load())
+                            ret = [ast.Return(value=val)]
+                        helper = ast.FunctionDef(
+                            name=hname,
+                            args=ast.arguments(posonlyargs=[], args=[ast.arg(arg=x) for x in (["self"] if is_method else []) + a2],
+                                               kwonlyargs=[], kw_defaults=[], defaults=[]),
+                            body=block + ret, decorator_list=[], lineno=1)
+                        fnexpr = ast.Attribute(value=ast.Name(id="self", ctx=ast.Load()), attr=hname, ctx=ast.Load()) \
+                            if is_method else ast.Name(id=hname, ctx=ast.Load())
+                        call = ast.Call(func=fnexpr, args=[ast.Name(id=x, ctx=ast.Load()) for x in a2], keywords=[])
+                        if live:
+                            tgt = ast.Name(id=live[0], ctx=ast.Store()) if len(live) == 1 else \
+                                ast.Tuple(elts=[ast.Name(id=x, ctx=ast.Store()) for x in live], ctx=ast.Store())
+                            new = ast.Assign(targets=[tgt], value=call)
+                        else:
+                            new = ast.Expr(value=call)
+                        body[i:j] = [new]
+                        owner = nodes[cls_k] if cls_k is not None else t2
+                        owner.body.insert(owner.body.index(f2) + 1, helper)
+                    yield (f"extract statements {i}..{j - 1} of a block at line {first} into {hname}({', '.join(args)}) -> {live}",
+                           first, fn.name, extract)
+
+
+def structural(job):
+    rel, idx = job
+    src = open(os.path.join(REPO, rel), encoding="utf-8").read()
+    vs = list(structural_variants_of(src))
+    desc, line, fname, mutate = vs[idx]
+    t2 = ast.parse(src)
+    mutate(t2)
+    ast.fix_missing_locations(t2)
+    try:
+        new = ast.unparse(t2)
+        compile(new, "<variant>", "exec")
+    except Exception as ex:
+        return dict(file=rel, function=fname, line=line, rewrite=desc, flagged={}, errors={}, skipped=str(ex))
+    r = evaluate((rel, desc, line, fname, new))
+    r["source"] = new if (r["flagged"] or r["errors"]) else None
+    return r
+
+
 def compose(job):
     """K random rewrites applied one after the other to one file (each on the result of the previous one)."""
     import random
@@ -194,7 +369,29 @@ def main():
     ap.add_argument("--compose", type=int, default=0, help="apply K random rewrites per sample instead of single edits")
     ap.add_argument("--samples", type=int, default=200)
     ap.add_argument("--seed", type=int, default=1)
+    ap.add_argument("--structural", action="store_true", help="extract-method / guard-clause refactorings (sampled)")
     a = ap.parse_args()
+    if a.structural:
+        import random
+        rnd = random.Random(a.seed)
+        jobs = []
+        for dp, _, fs in os.walk(os.path.join(REPO, "opfython")):
+            for f in sorted(fs):
+                rel = os.path.relpath(os.path.join(dp, f), REPO)
+                if f.endswith(".py") and f != "__init__.py" and (not a.files or any(x in rel for x in a.files)):
+                    n = len(list(structural_variants_of(open(os.path.join(REPO, rel), encoding="utf-8").read())))
+                    jobs += [(rel, k) for k in range(n)]
+        jobs.sort()
+        print(f"{len(jobs)} structural candidates", flush=True)
+        if a.samples and a.samples < len(jobs):
+            jobs = rnd.sample(jobs, a.samples)
+        with mp.get_context("fork").Pool(a.jobs) as pool:
+            res = pool.map(structural, jobs, chunksize=2)
+        bad = [r for r in res if r["flagged"] or r["errors"]]
+        skipped = [r for r in res if r.get("skipped")]
+        json.dump(dict(total=len(res), false_alarms=bad, skipped=skipped), open(a.out, "w"), indent=1)
+        print(f"total {len(res)}  silent {len(res) - len(bad) - len(skipped)}  skipped {len(skipped)}  false alarms {len(bad)}")
+        return
     if a.compose:
         import random
         rnd = random.Random(a.seed)
